@@ -81,6 +81,7 @@ func (ms *memstore) GetMeta(baseUrl HttpBaseUrl, bucket string, filename string)
 	f := ms.find(bucket, filename)
 	if f != nil {
 		meta := f.meta
+		meta.Metadata = copyMetadata(meta.Metadata)
 		InitMetaWithUrls(baseUrl, &meta, bucket, filename, uint64(len(f.data)))
 		return &meta, nil
 	}
@@ -138,6 +139,7 @@ func (ms *memstore) Copy(srcBucket string, srcFile string, dstBucket string, dst
 
 	// Copy with metadata
 	meta := src.meta
+	meta.Metadata = copyMetadata(meta.Metadata)
 	meta.TimeCreated = "" // reset creation time on the dest file
 	err := ms.Add(dstBucket, dstFile, src.data, &meta)
 	if err != nil {
@@ -189,6 +191,18 @@ func (ms *memstore) Walk(ctx context.Context, bucket string, cb func(ctx context
 		return nil
 	}
 	return os.ErrNotExist
+}
+
+// copyMetadata returns a copy of the user metadata map so that stored objects never share it.
+func copyMetadata(m map[string]string) map[string]string {
+	if m == nil {
+		return nil
+	}
+	ret := make(map[string]string, len(m))
+	for k, v := range m {
+		ret[k] = v
+	}
+	return ret
 }
 
 func (ms *memstore) key(filename string) btree.Item {
